@@ -33,6 +33,7 @@ RULE = (
     ' Round 10: texts not in Unicode NFC; `nested_edit` (child values, descriptions, children edited in place between two saves).'
     ' Round 11: `debug_log`, `warnings=error`, `repath` (Persistence.path reassigned before saving).'
     ' Round 12: `failed_load_first`; the round trips also under `python -O`.'
+    ' Round 13: `tilde` (a configured path starting with ~).'
 )
 ASSUMPTIONS = [
     "real files in a scratch directory (tmpfs when available), aiofiles and its thread pool unmocked",
